@@ -512,3 +512,10 @@ def check(P: Project, R: Report) -> None:
     R.ob("R6", "plain defaults of protocol models are immutable values (or the fallback copies them)", n_mut == 0 or bool(copies), fb_base.rel + f":{builder.node.lineno if builder else 1}", f"{n_def} plain defaults, {n_mut} mutable, fallback copies: {bool(copies)}",
          sample=f"R6 {n_def} plain defaults, {n_mut} mutable")
     R.need(n_def >= 30, f"only {n_def} plain field defaults seen")
+
+    # ------------------------------------------------------------------ R7: the envelope's own dump leaves the payload alone
+    from ..lift import lift
+
+    lift(P, R, "C02", {"R5"}, "R7",
+         "validate → dump returns every member of the input: an envelope class that overrides model_dump / model_dump_json only filters absent top-level members and never rewrites what is inside params, result, error or an unknown extension member (the override obligations of C02-R5, read here for 'every member of the input is preserved exactly, unknown members included')",
+         "envelope: ", min_n=1, suffix=" — an explicit null inside a free-form payload (tool arguments, structuredContent, a schema's default, an extension member) is a member of the input and is gone from the output")
